@@ -109,14 +109,7 @@ Definition parse_text (s : list N) : option expr :=
 End Lexer.
 
 (* ------------------------------------------------------------ what the grammar can express
-   (decidable side conditions of the round-trip theorem; the harness evaluates them too) *)
-(* an ASCII identifier: [A-Za-z_][A-Za-z0-9_]* *)
-Definition ident (s : list N) : bool :=
-  match s with
-  | c :: r => (is_alpha c && forallb RrelSyntax.is_word r)%bool
-  | [] => false
-  end.
-
+   (decidable side conditions of the round-trip theorems; the harness evaluates them too) *)
 (* the text f can be written between quotes q as a string_value that reads back as f whatever
    follows: every q in f is preceded by a backslash and f does not end in a backslash that would
    pair with the closing quote *)
@@ -136,14 +129,84 @@ Fixpoint str_ok (q : N) (f : list N) : bool :=
 (* f can be written as a string_value at all (in single or in double quotes) *)
 Definition expressible (f : list N) : bool := (str_ok c_squote f || str_ok c_dquote f)%bool.
 
+(* f ends in a backslash *)
+Fixpoint ends_bs (f : list N) : bool :=
+  match f with
+  | [] => false
+  | c :: f' => match f' with [] => N.eqb c c_bslash | _ :: _ => ends_bs f' end
+  end.
+
+(* what string_value's regex can have matched between quotes q: no unescaped q *)
+Definition fx_lexed (f : list N) : bool := (negb (unesc c_squote f) || negb (unesc c_dquote f))%bool.
+
+Definition nonzero (n : nat) : bool := negb (Nat.eqb n 0).
+
+(* a tree all of whose names / fixed names / dots counts satisfy the given tests *)
+Section TreeTests.
+Variables (pid pfx : list N -> bool) (pd : nat -> bool).
+Fixpoint lx_elem (e : elem) : bool :=
+  match e with
+  | EParent t => pid t
+  | ENav n _ f => (pid n && match f with Some fx => pfx fx | None => true end)%bool
+  | EDots n => pd n
+  | EBr s => lx_seq s
+  | EStar s => lx_seq s
+  end
+with lx_path (p : path) : bool :=
+  match p with
+  | P1 e => lx_elem e
+  | PCons e p' => (lx_elem e && lx_path p')%bool
+  end
+with lx_seq (s : seq) : bool :=
+  match s with
+  | S1 p => lx_path p
+  | SCons p s' => (lx_path p && lx_seq s')%bool
+  end.
+End TreeTests.
+
+Section Hyp.
+Variable u : N -> N.           (* classification of non-ASCII code points *)
+
+(* an identifier as rrel_id's regex [^\d\W]\w*\b matches it *)
+Definition idstart (c : N) : bool := (Rx.is_word (rrel_env u) c && negb (Rx.is_digit (rrel_env u) c))%bool.
+Definition ident (s : list N) : bool :=
+  match s with
+  | c :: r => (idstart c && forallb (Rx.is_word (rrel_env u)) r)%bool
+  | [] => false
+  end.
+
 Definition tok_ok (t : tok) : bool :=
   match t with
   | TId s => ident s
   | TStr s q => ((N.eqb q c_squote || N.eqb q c_dquote) && str_ok q s)%bool
-  | TDots n => negb (Nat.eqb n 0)
+  | TDots n => nonzero n
   | TFlags s => (struth s && forallb is_flagch s)%bool
   | _ => true
   end.
+
+(* what the lexer can return *)
+Definition tok_lexed (t : tok) : bool :=
+  match t with
+  | TId s => ident s
+  | TStr s q => ((N.eqb q c_squote || N.eqb q c_dquote) && negb (unesc q s))%bool
+  | TDots n => nonzero n
+  | TFlags s => (struth s && forallb is_flagch s)%bool
+  | _ => true
+  end.
+
+(* names are identifiers, dots counts positive, flags over {m,p}, fixed names writable as a
+   string_value *)
+Definition lexable (e : expr) : bool :=
+  (lx_seq ident expressible nonzero (eseq e) && forallb is_flagch (eflags e))%bool.
+
+(* what the parser can return *)
+Definition parsed_ok (e : expr) : bool :=
+  (lx_seq ident fx_lexed nonzero (eseq e) && forallb is_flagch (eflags e))%bool.
+End Hyp.
+
+(* no fixed name ends in a backslash (the exclusion of the known finding trailing-backslash) *)
+Definition no_trailing_bs (e : expr) : bool :=
+  lx_seq (fun _ => true) (fun f => negb (ends_bs f)) (fun _ => true) (eseq e).
 
 (* tokens whose texts would run together: identifier after identifier, dots after dots *)
 Definition cls (t : tok) : nat := match t with TId _ => 1 | TDots _ => 2 | _ => 0 end.
@@ -158,27 +221,4 @@ Fixpoint end_cls (prev : nat) (ts : list tok) : nat :=
   | [] => prev
   | t :: r => end_cls (cls t) r
   end.
-Definition toks_ok (ts : list tok) : bool := (forallb tok_ok ts && adj_from 0 ts)%bool.
-
-Fixpoint lx_elem (e : elem) : bool :=
-  match e with
-  | EParent t => ident t
-  | ENav n _ f => (ident n && match f with Some fx => expressible fx | None => true end)%bool
-  | EDots n => negb (Nat.eqb n 0)
-  | EBr s => lx_seq s
-  | EStar s => lx_seq s
-  end
-with lx_path (p : path) : bool :=
-  match p with
-  | P1 e => lx_elem e
-  | PCons e p' => (lx_elem e && lx_path p')%bool
-  end
-with lx_seq (s : seq) : bool :=
-  match s with
-  | S1 p => lx_path p
-  | SCons p s' => (lx_path p && lx_seq s')%bool
-  end.
-
-(* names are identifiers, dots counts positive, flags over {m,p}, fixed names writable as a
-   string_value *)
-Definition lexable (e : expr) : bool := (lx_seq (eseq e) && forallb is_flagch (eflags e))%bool.
+Definition toks_ok (u : N -> N) (ts : list tok) : bool := (forallb (tok_ok u) ts && adj_from 0 ts)%bool.
